@@ -1,7 +1,7 @@
 import GuppyVerif.Lemmas.C01
 /-! `getitem` on a place stored as leaves (Lemma B): succeeds, returns a wire denoting the stored
     value, touches only the subtree of the place. -/
-namespace GuppyVerif.Wiring
+namespace GuppyVerif.DFWiring
 
 theorem child_suffix_child {i j : Nat} {p : PlaceId} (h : (j :: p) <:+ (i :: p)) : j = i :=
   under_child_inj h (List.suffix_refl _)
@@ -132,4 +132,4 @@ theorem getitemList_post : ∀ (ts : List Ty) (L : Locals) (n : Nat) (p : PlaceI
   | _ :: _, _, _, _, _, _, [], h => by simp [HoldsList] at h
 end
 
-end GuppyVerif.Wiring
+end GuppyVerif.DFWiring
